@@ -1,12 +1,12 @@
 package lite
 
 import (
-	"os"
 	"context"
-	"math/rand"
 	"errors"
 	"io"
+	"math/rand"
 	"net"
+	"os"
 	"time"
 
 	"go.minekube.com/gate/pkg/edition/java/netmc"
@@ -67,10 +67,12 @@ func (c *zzPipeConn) Write(p []byte) (int, error) {
 	c.out = append(c.out, p...)
 	return len(p), nil
 }
-func (c *zzPipeConn) Close() error                     { c.closed++; return nil }
-func (c *zzPipeConn) LocalAddr() net.Addr              { return &net.TCPAddr{IP: net.IPv4(10, 0, 0, 1), Port: 25565} }
-func (c *zzPipeConn) RemoteAddr() net.Addr             { return c.remote }
-func (c *zzPipeConn) SetDeadline(t time.Time) error    { return c.SetReadDeadline(t) }
+func (c *zzPipeConn) Close() error { c.closed++; return nil }
+func (c *zzPipeConn) LocalAddr() net.Addr {
+	return &net.TCPAddr{IP: net.IPv4(10, 0, 0, 1), Port: 25565}
+}
+func (c *zzPipeConn) RemoteAddr() net.Addr          { return c.remote }
+func (c *zzPipeConn) SetDeadline(t time.Time) error { return c.SetReadDeadline(t) }
 func (c *zzPipeConn) SetReadDeadline(t time.Time) error {
 	// time does not pass within a run: a deadline in the future never expires, one that is not does at once
 	c.expired = !t.IsZero() && !t.After(time.Now())
@@ -85,11 +87,28 @@ type zzFwdClient struct {
 	buffered    []byte
 	bufferedErr error
 	closed      int
+	proxied     bool // the listener accepted the connection behind a PROXY protocol header
 }
 
-func (c *zzFwdClient) Conn() net.Conn                  { return c.conn }
-func (c *zzFwdClient) Context() context.Context        { return context.Background() }
-func (c *zzFwdClient) Close() error                    { c.closed++; return nil }
+// zzProxiedConn has the shape of the wrapper a PROXY-protocol listener hands out (go-proxyproto's
+// Conn): RemoteAddr is the client address from the received header, and the accepted TCP connection,
+// whose peer is the load balancer, can be asked for.
+type zzProxiedConn struct {
+	*zzPipeConn
+	asked int
+}
+
+func (c *zzProxiedConn) TCPConn() (*net.TCPConn, bool) { c.asked++; return &net.TCPConn{}, true }
+
+func (c *zzFwdClient) Conn() net.Conn {
+	if c.proxied {
+		return &zzProxiedConn{zzPipeConn: c.conn}
+	}
+	return c.conn
+}
+func (c *zzFwdClient) Context() context.Context { return context.Background() }
+func (c *zzFwdClient) Close() error             { c.closed++; return nil }
+
 // ReadBuffered drains the reader's buffer like the real one: the bytes are handed out once.
 func (c *zzFwdClient) ReadBuffered() ([]byte, error) {
 	b := c.buffered
@@ -102,10 +121,10 @@ var errZZDial = errors.New("dial tcp: connection refused")
 // zzDialer replaces net.Dialer.DialContext: each dialed address gets its own in-memory backend, or a
 // dial error for the addresses listed in refuse.
 type zzDialer struct {
-	dialed   []string
-	backends map[string]*zzPipeConn
-	refuse   map[string]bool
-	breakAt  map[string]int // address -> number of the first write that fails (connection reset)
+	dialed      []string
+	backends    map[string]*zzPipeConn
+	refuse      map[string]bool
+	breakAt     map[string]int // address -> number of the first write that fails (connection reset)
 	fromBackend []byte
 }
 
